@@ -120,7 +120,13 @@ func readFrom(rd io.Reader) (R, uint64, int64) {
 		var err error
 		var m0, m1 runtime.MemStats
 		runtime.ReadMemStats(&m0)
-		p := hx.Catch(func() { s, err = smf.ReadFrom(rd) })
+		p := hx.Catch(func() {
+			if useLog {
+				s, err = smf.ReadFrom(rd, smf.Log(smf.LogTo(io.Discard)))
+			} else {
+				s, err = smf.ReadFrom(rd)
+			}
+		})
 		runtime.ReadMemStats(&m1)
 		a := (m1.TotalAlloc - m0.TotalAlloc) / 1024 // KiB, capped so that it stays a TLC integer
 		if a > 1<<30 {
@@ -142,7 +148,18 @@ func readFrom(rd io.Reader) (R, uint64, int64) {
 func readBytes(b []byte) (R, uint64, int64) { return readFrom(bytes.NewReader(b)) }
 
 // execHistory performs the API calls and returns the SMF value built.
+// useLog: the case at hand runs with a logger configured (set from the record's Log field before it is executed)
+var useLog bool
+
 func execHistory(h []Op) *smf.SMF {
+	s := execHistory0(h)
+	if s != nil && useLog {
+		s.Logger = smf.LogTo(io.Discard)
+	}
+	return s
+}
+
+func execHistory0(h []Op) *smf.SMF {
 	var s *smf.SMF
 	var tr smf.Track
 	for _, o := range h {
@@ -155,6 +172,9 @@ func execHistory(h []Op) *smf.SMF {
 				s = smf.NewSMF1()
 			default:
 				s = smf.NewSMF2()
+			}
+			if useLog {
+				s.Logger = smf.LogTo(io.Discard)
 			}
 		case "tf":
 			if o.Kind == "metric" {
@@ -199,6 +219,7 @@ type WrRec struct {
 	Ev    string   `json:"ev"`
 	ID    int      `json:"id"`
 	Judge string   `json:"judge"`
+	Log bool `json:"log"` // a Logger is configured (SMF.Logger for writes, smf.Log for reads): must not change any result
 	Hist  []Op     `json:"hist"`
 	Bytes hx.B     `json:"bytes"`
 	Size  int64    `json:"size"`
@@ -259,6 +280,7 @@ type RdRec struct {
 	Ev    string   `json:"ev"`
 	ID    int      `json:"id"`
 	Judge string   `json:"judge"`
+	Log bool `json:"log"` // a Logger is configured (SMF.Logger for writes, smf.Log for reads): must not change any result
 	Bytes hx.B     `json:"bytes"`
 	Read  R        `json:"read"`
 	Feat  []string `json:"feat"`
